@@ -8,6 +8,7 @@
  *   ctag <runs-tag> <runs-val>   vorbis_comment_add_tag
  *   craw <runs>                  append by filling the arrays directly with an explicit length (may contain zero bytes)
  *   crt <e|s>                    round trip: e = vorbis_analysis_headerout of an encoder, s = vorbis_commentheader_out; then vorbis_synthesis_headerin
+ *   ctr <k>                      the stand-alone comment header cut short by k >= 1 bytes, fed to vorbis_synthesis_headerin: must be refused, nothing kept
  *   cq <runs-tag> <n> [src]      vorbis_comment_query on the decoded set (or the source set if "src" is given)
  *   cqc <runs-tag> [src]         vorbis_comment_query_count
  *   cclr                         clear both sets (and the encoder)
@@ -75,6 +76,21 @@ static void cmd(char **tok,int nt){
     if(dec.vendor) ev_runs("vendor",(unsigned char*)dec.vendor,strlen(dec.vendor)); else ev_raw("vendor","[]");
     ev_end();
     if(own&&ro==0) ogg_packet_clear(&h[1]);
+    vorbis_info_clear(&vi);
+  }
+  else if(!strcmp(c,"ctr")&&nt>=2&&src_on){
+    /* the comment header of the source set cut short by <k> bytes (k >= 1: at least the framing byte is gone), behind a valid identification header */
+    long cut=atol(tok[1]); if(cut<1) cut=1;
+    if(dec_on){ vorbis_comment_clear(&dec); dec_on=0; }
+    ogg_packet h; memset(&h,0,sizeof h); int ro=vorbis_commentheader_out(&src,&h); int ri=-9999; long full=ro==0?h.bytes:-1;
+    vorbis_info vi; vorbis_info_init(&vi); vorbis_comment_init(&dec); dec_on=1;
+    if(ro==0){
+      if(!enc_on){ vorbis_info_init(&evi); if(vorbis_encode_init_vbr(&evi,1,8000,0.1f)==0&&vorbis_analysis_init(&evd,&evi)==0) enc_on=1; }
+      vorbis_comment tmp; vorbis_comment_init(&tmp); ogg_packet a,b2,c2; int r0=-1; if(enc_on&&vorbis_analysis_headerout(&evd,&tmp,&a,&b2,&c2)==0){ a.b_o_s=1; r0=vorbis_synthesis_headerin(&vi,&dec,&a); } vorbis_comment_clear(&tmp);
+      if(r0==0){ if(cut>h.bytes) cut=h.bytes; h.bytes-=cut; ri=vorbis_synthesis_headerin(&vi,&dec,&h); h.bytes+=cut; }
+    }
+    ev_begin("Truncated"); ev_i("ro",ro); ev_i("ri",ri); ev_i("bytes",full); ev_i("cut",cut); ev_i("ns",src.comments); ev_i("nd",dec.comments); ev_i("ven",dec.vendor!=NULL); ev_i("arr",dec.user_comments!=NULL||dec.comment_lengths!=NULL); ev_end();
+    if(ro==0) ogg_packet_clear(&h);
     vorbis_info_clear(&vi);
   }
   else if((!strcmp(c,"cq")||!strcmp(c,"cqc"))&&nt>=2){
